@@ -34,7 +34,9 @@ type rig struct {
 
 	panicSeen map[*lib.Server]int
 	mu        sync.Mutex
-	ran       map[string]int // cases run so far, by "op/fault"
+	ran       map[string]int  // cases run so far, by "op/fault"
+	used      map[string]bool // keys handed out so far
+	lies      map[string]bool // keys for which the backend lied self-consistently (their cached form is not judged)
 }
 
 type rigDef struct {
@@ -54,7 +56,7 @@ func (d rigDef) name() string {
 
 func newRig(w *world, d rigDef, idx int) (*rig, error) {
 	rg := &rig{w: w, name: d.name(), family: d.family, storage: d.storage, maxProxy: d.maxProxy, numUp: d.numUp,
-		maxQueue: d.maxQueue, role: d.role, panicSeen: map[*lib.Server]int{}, ran: map[string]int{}}
+		maxQueue: d.maxQueue, role: d.role, panicSeen: map[*lib.Server]int{}, ran: map[string]int{}, lies: map[string]bool{}, used: map[string]bool{}}
 	rg.zstdImpl = []string{"go", "cgo"}[idx%2]
 	var err error
 	switch d.family {
@@ -198,6 +200,12 @@ func (rg *rig) quiesce(phase string, deep bool) {
 		}
 		r.Count("quiescence.acct-checked")
 		d, _, verdict := lib.CheckDirQuiescent(s.Cache, deep)
+		if verdict == "violated" {
+			d.BadBlob, d.BadSize = rg.dropLies(d.BadBlob), rg.dropLies(d.BadSize)
+			if d.Empty() {
+				verdict = "ok"
+			}
+		}
 		switch verdict {
 		case "violated":
 			r.Violation(rg.key("quiescence", who, "directory"),
@@ -235,6 +243,31 @@ func (rg *rig) caseSummary() map[string]int {
 	out := map[string]int{}
 	for k, v := range rg.ran {
 		out[k] = v
+	}
+	return out
+}
+
+func (rg *rig) noteLie(hash string) {
+	rg.mu.Lock()
+	rg.lies[hash] = true
+	rg.mu.Unlock()
+}
+
+// dropLies removes discrepancies about entries whose content the backend
+// lied about consistently (the backend is trusted; what was cached for those
+// keys is outside the oracle).
+func (rg *rig) dropLies(l []string) []string {
+	rg.mu.Lock()
+	defer rg.mu.Unlock()
+	var out []string
+next:
+	for _, e := range l {
+		for h := range rg.lies {
+			if strings.Contains(e, h) {
+				continue next
+			}
+		}
+		out = append(out, e)
 	}
 	return out
 }
